@@ -100,10 +100,11 @@ claim("C12",
       "DESIGN.md 9.4 C12")
 claim("C13",
       "Bounded model checking of the triple pattern kernel: TriplePattern::matches agrees with the set semantics for every universe triple and all 27 patterns (all 8 bound/unbound "
-      "shapes); Term equality is reflexive, symmetric, never holds across kinds, and equal lexical forms with different datatype/language tags are different terms.",
+      "shapes); Term equality is reflexive, symmetric, never holds across kinds, and equal lexical forms with different datatype/language tags are different terms; two language-tagged literals are the same term exactly when lexical form and tag (both symbolic) agree, "
+      "and an object-bound pattern matches across them only then.",
       "Pattern-matching and term-equality kernels only: the store (insert/remove/indexes) is out of reach (a single concrete insert had no verdict in 5 min, DESIGN.md 9.2); SPARQL "
       "translation, planning and execution are outside.",
-      "DESIGN.md 9.4 C13")
+      "DESIGN.md 9.4 C13, 9.10")
 claim("C17",
       "Bounded model checking of the morsel arithmetic: generate_morsels covers [0,total) exactly with consecutive, non-empty, disjoint morsels for total <= 3 and EVERY usize morsel "
       "size (0, larger than the input, near usize::MAX); Morsel::split_at yields two adjacent non-empty halves.",
